@@ -138,6 +138,38 @@ def run(ctx):
             want = "ls:%s:%s" % (_m.hexor(n) if make_active else "-", "" if make_active else _m.hexor(n))
             if ("res=" + want) not in lst:
                 viol.append({"op": "listscripts", "what": "listing after the rename differs from the server's state: %s, want %s" % (lst[:80], want)})
+    # directed sessions: names the client must send as literals (a line break or NUL inside) that also hold multi-byte characters —
+    # store, fetch, activate and delete under such a name, then a command that must still find the connection in step
+    for nm in ("été\nhiver", "r\r\nésumé", "nul\0é€", "\n€", "plain\nascii"):
+        srv = _rs.RefServer(r, scripts={b"keepme": b"stop;\r\n"}, version=True)
+        ses = _m.Session()
+        ses.connect(b"", [], "user", "pw", server=srv)
+        body = "# été\r\nkeep;\r\n"
+        o1 = ses.op("putscript", nm, body)
+        o2 = ses.op("getscript", nm)
+        o3 = ses.op("setactive", nm)
+        o4 = ses.op("havespace", nm, 10)
+        o5 = ses.op("setactive", "")
+        o6 = ses.op("deletescript", nm)
+        o7 = ses.op("getscript", "keepme")
+        evals += 7
+        nontriv += 1
+        key = nm.encode("utf-8")
+        probs = []
+        # RFC 5804 forbids control characters in script names: a conforming server answers NO (the reference server does) — what is
+        # judged is that each call got ITS OWN answer: the server saw seven well-formed commands carrying exactly that name, and the
+        # connection is still in step afterwards
+        seen = [(v, [a for t, a in args if t == "str"][:1]) for v, args, _, _ in srv.commands if v in ("PUTSCRIPT", "GETSCRIPT", "SETACTIVE", "HAVESPACE", "DELETESCRIPT")]
+        want = [("PUTSCRIPT", [key]), ("GETSCRIPT", [key]), ("SETACTIVE", [key]), ("HAVESPACE", [key]), ("SETACTIVE", [b""]), ("DELETESCRIPT", [key]), ("GETSCRIPT", [b"keepme"])]
+        if seen != want:
+            probs.append("the server received %r, the caller asked for %r" % (seen[:8], want))
+        if "res=s:" not in o7:
+            probs.append("a later command is out of step: getscript('keepme') returned %s" % o7[:60])
+        if srv.log:
+            probs.append("server protocol log: %r" % (srv.log,))
+        for p_ in probs:
+            viol.append({"op": "session on the name %r" % nm, "what": p_})
+
     # directed sessions: the emulated rename on a server that is at its script-count quota (the copy is refused: nothing may change,
     # the call returns False) and one slot below it (the rename goes through and carries the active mark over)
     for make_active in (True, False):
